@@ -7,6 +7,10 @@ TRANSPARENT = {"ExprWithCleanups", "MaterializeTemporaryExpr", "CXXBindTemporary
 LOG_CALLS = {"_xbt_log_event_log", "_xbt_log_cat_init"}
 ABORT_CALLS = {"xbt_abort", "abort"}
 DROP_CALLS = {"xbt_backtrace_display_current"}
+# wrappers W(closure, ...) whose meaning for the calling actor is "run the closure once, now, and return its result"
+# (simcall_answered: the kernel runs the closure in maestro context while the caller is blocked). The closure is lifted
+# into a C function and called in place; the assumption is reported in gen.json "dropped".
+SYNC_WRAPPERS = {"simcall_answered"}
 ARITH_CASTS = {"IntegralCast", "FloatingToIntegral", "IntegralToFloating", "FloatingCast", "IntegralToBoolean",
                "FloatingToBoolean", "PointerToBoolean", "BooleanToSignedIntegral", "PointerToIntegral",
                "IntegralToPointer"}
@@ -65,6 +69,7 @@ class Emitter:
         self.unit = None
         self.refvars = [set()]
         self.renames = self.cfg.get("rename", {})
+        self.const_types = {}  # const_globals name -> C type
         self.lib = libmap
         self.dropped = []
         self.callees = {}  # cname -> description
@@ -144,6 +149,11 @@ class Emitter:
     def note_proto(self, cname, ret, params, src, variadic=False):
         old = self.protos.get(cname)
         new = (ret, tuple(params), variadic)
+
+        def canon(p):  # size_t and unsigned long are the same C type on the LP64 target: not a collision
+            return (re.sub(r"\bsize_t\b", "unsigned long", p[0]), tuple(re.sub(r"\bsize_t\b", "unsigned long", x) for x in p[1]), p[2])
+        if old and canon(old[:3]) == canon(new):
+            return
         if old and (old[0], old[1], old[2]) != new:
             raise Unsupported("C name collision for %s: %s vs %s (add a rename in the spec config)" %
                               (cname, old[:3], new))
@@ -168,7 +178,44 @@ class Emitter:
         m = getattr(self, "e_" + k, None)
         if m is None:
             raise Unsupported("expression kind %s" % k)
+        if k in ("CallExpr", "CXXMemberCallExpr"):
+            return self.nested_call(n, m)
+        if k == "ConditionalOperator" or (k == "BinaryOperator" and n.get("opcode") in ("&&", "||")):
+            self.lazy_depth = getattr(self, "lazy_depth", 0) + 1
+            try:
+                return m(n)
+            finally:
+                self.lazy_depth -= 1
         return m(n)
+
+    def nested_call(self, n, m):
+        """A call to a non-model function that is evaluated INSIDE another call (as its argument), e.g.
+        memcpy(f(x), src, n): the exception model's `if (vf_exc) return` after the whole statement would come too
+        late (the outer call would run on f's dummy return value, whereas the real program has already aborted).
+        Such an inner call is hoisted into a temporary followed by the propagation test. Not done under ?: && ||
+        (evaluation there is conditional) nor for calls returning references/void/structs."""
+        depth = getattr(self, "call_depth", 0)
+        self.call_depth = depth + 1
+        before = self.callflag
+        self.callflag = False
+        try:
+            e = m(n)
+        finally:
+            self.call_depth = depth
+        mine, self.callflag = self.callflag, (before or self.callflag)
+        if not (mine and depth > 0 and getattr(self, "lazy_depth", 0) == 0 and self.cfg.get("exceptions", True)):
+            return e
+        if n.get("valueCategory") != "prvalue" or e.startswith("(*"):
+            return e
+        try:
+            ct = self.ctype(n)
+        except Unsupported:
+            return e
+        if ct == "void" or (ct.startswith("struct ") and not ct.endswith("*")):
+            return e
+        tmp = self.new_tmp(ct, e)
+        self.pre.append("if (vf_exc) " + self.ret_zero())
+        return tmp
 
     def e_transparent(self, n):
         return self.E(n["inner"][0])
@@ -272,6 +319,10 @@ class Emitter:
         if name in self.cfg.get("const_globals", {}):
             # compile-time constant of the real code: evaluated by the real compiler (cxx2c.eval_constants)
             self.const_needed.add(name)
+            try:  # keep the constant's own type (an `unsigned` flag must not become a signed int literal)
+                self.const_types[name] = self.ctype((rd.get("type") or {}).get("desugaredQualType") or rd["type"]["qualType"])
+            except Unsupported:
+                pass
             return "VFC_" + ident(name)
         gmap = self.cfg.get("globals", {})
         cn = gmap.get(name, ident(name))
@@ -337,6 +388,10 @@ class Emitter:
         if ck == "BitCast":
             return "((%s)%s)" % (self.ctype(n), self.paren(self.E(inner)))
         if ck in ("DerivedToBase", "UncheckedDerivedToBase"):
+            sct, dct = self.try_ctype(inner), self.try_ctype(n)
+            if sct is not None and sct == dct and (not sct.startswith("struct ") or sct.endswith("*") or
+                                                   sct.startswith("struct vf_")):
+                return self.E(inner)  # library class and its base mapped to the same scalar / same model type
             return self.derived_to_base(n, inner)
         if ck == "BaseToDerived":
             return self.base_to_derived(n, inner)
@@ -351,6 +406,9 @@ class Emitter:
         path = self.cast_path(n, dtag)
         if not path:
             raise Unsupported("derived-to-base cast without path")
+        dct = self.try_ctype(n)
+        if len(path) == 1 and dct and dct.rstrip("*").startswith("struct vf_"):
+            path = [dct.rstrip("*")[len("struct "):]]  # class deriving from a modelled std container: base = the model
         e = self.paren(self.E(inner))
         cur = dtag
         acc = (e + "->") if is_ptr else (e + ".")
@@ -445,11 +503,32 @@ class Emitter:
         op = n["opcode"]
         if op == ",":
             return "(%s, %s)" % (self.E(a), self.E(b))
+        if op == "&&" and self.is_log_isenabled(n):
+            # XBT_LOG_ISENABLED(cat, prio): run-time logging configuration = unconstrained environment flag
+            self.globals["vf_log_enabled"] = "_Bool"
+            return "vf_log_enabled"
         if op == "=" and self.try_ctype(a) and self.try_ctype(a).startswith("struct vf_str"):
             pass
         return "%s %s %s" % (self.paren(self.E(a)), op, self.paren(self.E(b)))
 
     e_CompoundAssignOperator = e_BinaryOperator
+
+    @staticmethod
+    def is_log_isenabled(n):
+        """structural match of _XBT_LOG_ISENABLEDV: (prio >= STATIC && (cat.initialized || _xbt_log_cat_init(..))) && prio >= cat.threshold"""
+        def noparen(x):
+            while x.get("kind") in ("ParenExpr", "ImplicitCastExpr"):
+                x = x["inner"][0]
+            return x
+        l = noparen(n["inner"][0])
+        if l.get("kind") != "BinaryOperator" or l.get("opcode") != "&&":
+            return False
+        o = noparen(l["inner"][1])
+        if o.get("kind") != "BinaryOperator" or o.get("opcode") != "||":
+            return False
+        c = noparen(o["inner"][1])
+        return c.get("kind") == "CallExpr" and \
+            skip(c["inner"][0]).get("referencedDecl", {}).get("name") == "_xbt_log_cat_init"
 
     def e_CXXRewrittenBinaryOperator(self, n):
         return self.E(n["inner"][0])
@@ -600,6 +679,9 @@ class Emitter:
             rd = c["referencedDecl"]
             name = rd["name"]
             fnt = (rd.get("type") or {}).get("qualType")
+            if name in self.cfg.get("sync_wrappers", SYNC_WRAPPERS) and args and \
+                    skip(args[0]).get("kind") == "LambdaExpr":
+                return self.call_lambda_now(skip(args[0]), n, name)
             r = self.lib.free_call(self, n, name, args, fnt) if self.lib else None
             if r is not None:
                 return r
@@ -608,7 +690,16 @@ class Emitter:
             if name in DROP_CALLS:
                 self.dropped.append(name)
                 return "((void)0)"
-            cname = self.fn_cname(None, name, fnt)
+            # plain call of a CXXMethodDecl = static member function. clang's JSON gives no qualifier for the callee, so the
+            # class is only known when the callee is itself a configured unit `...::Class::name`: then it is named like
+            # that unit (Class__name); any other static callee keeps its bare name, as before.
+            stat_cls = None
+            if rd.get("kind") == "CXXMethodDecl":
+                for u in self.cfg.get("units", []):
+                    parts = u["name"].split("::")
+                    if len(parts) >= 2 and parts[-1] == name:
+                        stat_cls = self.tm.struct_tag(parts[-2])
+            cname = self.fn_cname(stat_cls, name, fnt)
             params = self.fn_params_from(fnt)
             a = self.call_args(args, params)
             ret, isref = self.ret_ctype_from(fnt)
@@ -684,7 +775,7 @@ class Emitter:
         ret = self.ctype(n)
         if isref:
             ret += "*"
-        cname = self.fn_cname(tag, name, None)
+        cname = self.fn_cname(tag, name, ",".join(pcs))  # overloads: rename key "Class__m|<inferred C param types>"
         pc = (["struct %s*" % tag] if obj is not None else []) + pcs
         self.note_proto(cname, ret, pc, "%s::%s (signature inferred at call site)" % (tag, name))
         self.callees.setdefault(cname, "%s::%s" % (tag, name))
@@ -913,6 +1004,76 @@ class Emitter:
         self.callflag = True
         return "%s(%s, %s, %s)" % (cname, b, e, fv)
 
+    def call_lambda_now(self, lam, call, wrapper):
+        """W(lambda) for a synchronous wrapper W: the closure body becomes the C function <unit>__lambda<k>; captures
+        become its parameters (this -> self, by-copy -> value, by-reference -> pointer); the call is emitted in place."""
+        rec = lam["inner"][0]
+        ops = [c for c in rec.get("inner", []) if c.get("kind") == "CXXMethodDecl" and c.get("name") == "operator()"]
+        fields = [c for c in rec.get("inner", []) if c.get("kind") == "FieldDecl"]
+        if len(ops) != 1:
+            raise Unsupported("generic lambda")
+        op = ops[0]
+        if any(c.get("kind") == "ParmVarDecl" for c in op.get("inner", [])):
+            raise Unsupported("lambda with parameters passed to %s" % wrapper)
+        body = [c for c in op.get("inner", []) if c.get("kind") == "CompoundStmt"]
+        caps = lam["inner"][1:1 + len(fields)]
+        if len(body) != 1 or len(caps) != len(fields):
+            raise Unsupported("lambda layout")
+        ret = self.ctype(call)
+        self.unit.lambdas = getattr(self.unit, "lambdas", 0) + 1
+        cname = "%s__lambda%d" % (self.unit.cname, self.unit.lambdas - 1)
+        params, ptypes, avs, binds = [], [], [], []
+        for f, cap in zip(fields, caps):
+            core = skip(cap)
+            ft = parse(qt(f))
+            if core.get("kind") == "CXXThisExpr":
+                tag = self.tm.class_tag_of(self.ptype(core))
+                params.append("struct %s* self" % tag)
+                ptypes.append("struct %s*" % tag)
+                avs.append("self")
+            elif core.get("kind") == "DeclRefExpr" and core["referencedDecl"].get("kind") in ("VarDecl", "ParmVarDecl"):
+                rd = core["referencedDecl"]
+                name = self.local_name(rd)
+                if "->" in name:
+                    raise Unsupported("capture of a structured binding")
+                if ft.kind in ("ref", "rref"):
+                    ct = self.tm.c(ft.to) + "*"
+                    avs.append(self.addr_of(core))
+                    binds.append((rd["id"], name, True))
+                else:
+                    ct = self.tm.c(ft)
+                    avs.append(self.E(cap))
+                    binds.append((rd["id"], name, False))
+                params.append("%s %s" % (ct, name))
+                ptypes.append(ct)
+            else:
+                raise Unsupported("lambda capture initialised by %s" % core.get("kind"))
+        saved = (self.unit, self.unit_ret, self.unit_ret_isref, self.locals, self.local_names, self.ref_ids,
+                 self.used_local_names, self.pre, self.cn, self.callflag)
+        unit = Unit(cname, op, self.unit.cls, "lambda")
+        self.begin_unit(unit, ret, False)
+        for did, name, isref in binds:
+            self.locals.add(did)
+            self.local_names[did] = name
+            self.used_local_names[name] = did
+            if isref:
+                self.ref_ids.add(did)
+        blines = self.s_CompoundStmt(body[0], "")
+        (self.unit, self.unit_ret, self.unit_ret_isref, self.locals, self.local_names, self.ref_ids,
+         self.used_local_names, self.pre, self.cn, self.callflag) = saved
+        text = ""
+        for k in range(unit.loops):
+            m = "VF_LOOP_%s_%d" % (cname, k)
+            text += "#ifndef %s\n#define %s\n#endif\n" % (m, m)
+        text += "/* ---- closure passed to %s in %s ---- */\n" % (wrapper, self.unit.cname)
+        text += "%s %s(%s)\n%s\n" % (ret, cname, ", ".join(params) if params else "void", "\n".join(blines))
+        self.lifted.append(text)
+        self.note_proto(cname, ret, ptypes, "closure run by %s" % wrapper)
+        self.unit_names.add(cname)
+        self.dropped.append("%s(closure) = closure run once in place" % wrapper)
+        self.callflag = True
+        return "%s(%s)" % (cname, ", ".join(avs))
+
     def e_CXXStdInitializerListExpr(self, n):
         return self.E(n["inner"][0])
 
@@ -933,6 +1094,32 @@ class Emitter:
         m = getattr(self, "s_" + k, None)
         if m is not None:
             return m(n, ind)
+        core = n
+        while core.get("kind") in TRANSPARENT:
+            core = core["inner"][0]
+        if core.get("kind") == "CXXThrowExpr":  # `throw E(temporary);` is wrapped in ExprWithCleanups
+            return self.s_CXXThrowExpr(core, ind)
+        if core.get("kind") == "BinaryOperator" and core.get("opcode") == "=" and self.cfg.get("exceptions", True):
+            # `lhs = f(..);` where f may throw: in C++ the store does not happen when f throws. The value goes through
+            # a temporary and is stored only when no exception is in flight.
+            a, b = core["inner"]
+            rct = self.try_ctype(b)
+            if rct is not None and (not rct.startswith("struct ") or rct.endswith("*")) and rct != "void":
+                saved, self.pre = self.pre, []
+                flag0, self.callflag = self.callflag, False
+                rhs = self.E(b)
+                if self.callflag:
+                    lhs = self.E(a)
+                    pre, self.pre = self.pre, saved
+                    self.unit.tmp += 1
+                    tmp = "__v%d" % self.unit.tmp
+                    out = [ind + "{"] + [ind + "  " + p for p in pre]
+                    out.append("%s  %s %s = %s;" % (ind, rct, tmp, rhs))
+                    out += self.exc_check(n, ind + "  ")
+                    out.append("%s  %s = %s;" % (ind, self.paren(lhs), tmp))
+                    out.append(ind + "}")
+                    return out
+                self.pre, self.callflag = saved, flag0
         # expression statement
         saved = self.pre
         self.pre = []
